@@ -91,10 +91,17 @@ def run(chk, prog):
     got = {}
     for conds, ret in r.returns:
         got["static" if any(is_t(tt, "isinst") and p for tt, p in conds) else "dynamic"] = ret
-    okg = mentions(got.get("static"), ("call", ("attr", ("attr", SELF, "mapping"), "get"), (ADDR, ("dict", ())), ())) and is_t(got.get("dynamic"), "treemap") and got["dynamic"][1] == ("index", ("leaf", SELF), ADDR)
+    vget = ("call", ("attr", ("attr", SELF, "mapping"), "get"), (ADDR, ("dict", ())), ())
+    okg = got.get("static") == ("phi", ("isinst", vget, "dict"), ("ctor", "Static", (vget,), ()), vget) and is_t(got.get("dynamic"), "treemap") and got["dynamic"][1] == ("index", ("leaf", SELF), ADDR)
     chk.require(okg, "CHM-RECURSE", "Static.get_inner_map", "static key -> that entry (empty if absent); index -> every leaf indexed", derived={k: show(v)[:100] for k, v in got.items()}.__str__(), expected="mapping.get(addr, {}) / tree_map(v -> v[addr], self)", where=W(s, "get_inner_map"))
     r = ev.eval_fn(s.methods["build"], s.module, s)
     okb = is_t(r.ret, "ctor") and r.ret[1] == "Static" and is_t(r.ret[2][0], "dictfam") and any(is_t(x, "un") and x[1] == "not" and is_mcall(x[2], "static_is_empty") for x in subterms(r.ret[2][0][1]))
+    if okb:
+        df = r.ret[2][0]
+        it_ = df[1][0] if isinstance(df[1], tuple) and len(df[1]) == 2 and not isinstance(df[1][0], str) else df[1]
+        el_ = mk_elem(it_)
+        v_ = mk_proj(el_, 1)
+        okb = df[2] == mk_proj(el_, 0) and df[3] == ("phi", ("isinst", v_, "Static"), ("attr", v_, "mapping"), v_)
     chk.require(okb, "CHM-RECURSE", "Static.build", "empty entries dropped", derived=show(r.ret)[:200], expected="{k: unwrap(v) for k, v in d.items() if not v.static_is_empty()}", where=W(s, "build"))
     # ---------------------------------------------------------------- Indexed / Switch
     ix = K["Indexed"]
@@ -155,6 +162,7 @@ def run(chk, prog):
         lv = leaves(body)
         e = mk_elem(t[1])
         okx = any(is_call(x, "build") and x[2] == (("dict", ((e, SELF),)),) for x in lv) and any(is_call(x, "build") and x[2] == (SELF, e) for x in lv)
+        okx = okx and is_t(body, "phi") and is_t(body[1], "isinst") and body[1][1] == e and is_call(body[2], "build") and body[2][2] == (("dict", ((e, SELF),)),)
     chk.require(okx, "CHM-RECURSE", "ChoiceMap.extend", "first component outermost; static -> Static level, dynamic -> Indexed level", derived=show(t)[:260], expected="for addr in reversed(addrs): Static.build({addr: acc}) | Indexed.build(acc, addr)", where=W(c, "extend"))
     b = K["_ChoiceMapBuilder"]
     r = ev.eval_fn(b.methods["set"], b.module, b)
